@@ -11,6 +11,16 @@ input of a step is the abstraction of what the real `HSTRP.from_bytes` returned 
 the code is the correspondence run of `harness/props/c17.py`, which derives that abstraction from the
 real parser and compares `sendto` bytes, return value, connected flag, S/N and registry.
 
+**Configuration.**  The state carries the handler's configuration: `activePeer` (`be_active_peer`),
+`port`, and `transport` (what `connection_made` stored; `none` before).  Every theorem quantifies over
+the whole state, hence over every configuration — active and passive, any port — and `config_irrelevant`
+/ `config_irrelevant_history` say outright that `be_active_peer` and `port` (constructor value or
+re-assigned between datagrams) never influence what is sent, returned or stored.  Statements about what
+is *sent* assume a transport (`s.transport.isSome`: `connection_made` was called, as asyncio guarantees
+before any datagram); `no_transport_silent` / `no_transport_raises_iff` say what happens without one.
+Histories may also contain `connection_lost`, `connection_made`, re-configuration and
+`periodic_maintenance` iterations (`Ev`): `connected_eq_last_events`, `registry_spec_events`.
+
 All theorems hold for **every** state and message, or every finite history (`List (Option Msg)`,
 unbounded).  Message classes follow the dispatch priority of the code
 (`is_connect` > `is_heartbeat` > `is_close` > `is_ack` > `is_reject` > data), which decides what a
@@ -59,30 +69,102 @@ theorem golden_ack :
                optBytes := [0x83, 4, 0, 1, 0x86, 0x9f, 4, 1, 2], payload := .none }).bytes
       = Gen.HstrpHandler.goldenAck := by decide
 
+theorem golden_connect : Out.connect.bytes = [0x32, 0x42, 0, 4, 0, 0] := by decide
+
+/-- the constructor takes `port` and `be_active_peer` (default `False`) and nothing else — the two fields
+of `Cfg`; a new configuration parameter breaks this -/
+theorem ctor_params_match :
+    Gen.HstrpHandler.ctorParamsBase = ["port", "be_active_peer="] ∧
+    Gen.HstrpHandler.ctorParamsRrs = ["port", "be_active_peer="] ∧
+    ({ port := 1 } : Cfg).activePeer = Gen.HstrpHandler.defaultActivePeer := by decide
+
+/-- the instance attributes are the fields of `St` (plus the two contact timestamps nothing reads) — a new
+mode attribute breaks this -/
+theorem attrs_match :
+    Gen.HstrpHandler.attrsBase =
+      ["transport", "hstrp_connected", "hstrp_last_contact", "hstrp_last_heartbeat", "port", "sn", "be_active_peer"] ∧
+    Gen.HstrpHandler.attrsRrs = Gen.HstrpHandler.attrsBase ++ ["registry"] := by decide
+
+/-- `init` is what `__init__` leaves, for both classes and both values of `be_active_peer` -/
+theorem new_handler_match :
+    ([false, true, false, true].map fun a =>
+        let s := init { port := 30123, activePeer := a }
+        (s.connected, s.sn, s.registry.length, s.activePeer, s.port, s.transport.isSome))
+      = Gen.HstrpHandler.newHandler := by decide
+
+/-- `tick` is one iteration of `periodic_maintenance`, for class × `be_active_peer` × connected: CONNECT to
+`tickHost` while not connected, whatever `be_active_peer` is -/
+theorem maintenance_match :
+    ([false, true].flatMap fun (_rrs : Bool) => [false, true].flatMap fun a => [false, true].map fun c =>
+        (a, c, (tick { ready { port := 30123, activePeer := a } with connected := c }).map
+          fun o => (o.bytes, tickHost)))
+      = Gen.HstrpHandler.maintenance := by decide
+
 /-! ## never raises -/
 
-/-- **never_raises (one datagram).** For every state and every message `HSTRP.from_bytes` can return
-(`Msg.WF`: one-octet version, two-octet S/N, octet options, 4-octet radio ip) — and for "not an HSTRP" —
-no `to_bytes` of an answer overflows: the faithful outcome `stepE` is the total `step`. -/
-theorem never_raises (s : St) (m : Option Msg) (hm : ∀ x, m = some x → x.WF = true) :
-    stepE s m = .ok (step s m) := by
-  simp only [stepE, step_not_raises s m hm, Bool.false_eq_true, if_false]
+/-- **never_raises (one datagram).** For every state with a transport — every configuration — and every
+message `HSTRP.from_bytes` can return (`Msg.WF`: one-octet version, two-octet S/N, octet options, 4-octet
+radio ip) — and for "not an HSTRP" — no `to_bytes` of an answer overflows and nothing else can raise:
+the faithful outcome `stepE` is the total `step`. -/
+theorem never_raises (s : St) (m : Option Msg) (ht : s.transport.isSome = true)
+    (hm : ∀ x, m = some x → x.WF = true) :
+    stepE s m = .ok (step s m) := stepE_ok s m ht hm
 
-/-- **never_raises (histories).** The faithful run of any history of parsed datagrams, from any state,
-never stops at an exception. -/
-theorem never_raises_history (s : St) (h : List (Option Msg)) (hm : ∀ x, some x ∈ h → x.WF = true) :
-    runE s h = .ok (runFrom s h) := runE_ok s h hm
+/-- the base handler guards every send: it never raises, with or without transport -/
+theorem never_raises_base (s : St) (m : Option Msg) (hm : ∀ x, m = some x → x.WF = true) :
+    stepBaseE s m = .ok (stepBase s m) := by
+  simp only [stepBaseE, stepBase_not_raises s m hm, Bool.false_eq_true, if_false]
+
+/-- **never_raises (histories).** The faithful run of any history of parsed datagrams, from any state
+with a transport, never stops at an exception. -/
+theorem never_raises_history (s : St) (h : List (Option Msg)) (ht : s.transport.isSome = true)
+    (hm : ∀ x, some x ∈ h → x.WF = true) :
+    runE s h = .ok (runFrom s h) := runE_ok s h ht hm
+
+/-- the precondition is exact: on a handler that never got a transport (`connection_made` not called —
+cannot happen under asyncio) the RRS handler raises exactly for the messages that carry a registration
+request (`rrs_confirm` sends unguarded), after updating registry and S/N; everything else is handled
+silently. -/
+theorem no_transport_raises_iff (s : St) (m : Option Msg) (ht : s.transport = Option.none)
+    (hm : ∀ x, m = some x → x.WF = true) :
+    stepE s m = if isRequest m then .error (.noTransport (step s m).1) else .ok (step s m) := by
+  simp only [stepE, raisesNoTransport, ht, Option.isNone_none, Bool.true_and, step_not_raises s m hm,
+    Bool.false_eq_true, if_false]
+
+/-- without a transport nothing is sent, and the state moves exactly as it does with one -/
+theorem no_transport_silent (s : St) (m : Option Msg) (ht : s.transport = Option.none) (t : Nat) :
+    (step s m).2.1 = [] ∧ (stepBase s m).2.1 = [] ∧
+    (step { s with transport := some t } m).1 = { (step s m).1 with transport := some t } ∧
+    (step { s with transport := some t } m).2.2 = (step s m).2.2 := by
+  refine ⟨(step_outs_no_transport s m ht).1, (step_outs_no_transport s m ht).2, ?_, ?_⟩ <;>
+  · cases m with
+    | none => rfl
+    | some m =>
+      obtain ⟨v, ⟨o, r, cl, co, hb, a⟩, sn, ob, pl⟩ := m
+      cases pl with
+      | none => cases co <;> cases hb <;> cases cl <;> cases a <;> cases r <;> simp [step, stepBase]
+      | other => cases co <;> cases hb <;> cases cl <;> cases a <;> cases r <;> simp [step, stepBase]
+      | rrs op ip =>
+        by_cases h1 : op = opRequest
+        · cases co <;> cases hb <;> cases cl <;> cases a <;> cases r <;> simp [step, stepBase, h1]
+        · by_cases h2 : op = opOffline
+          · subst h2
+            cases co <;> cases hb <;> cases cl <;> cases a <;> cases r <;>
+              simp [step, stepBase, opOffline_ne_opRequest]
+          · cases co <;> cases hb <;> cases cl <;> cases a <;> cases r <;> simp [step, stepBase, h1, h2]
 
 /-- a datagram that is no HSTRP is ignored: no output, `(False, None)`, state unchanged -/
 theorem non_hstrp_ignored (s : St) : step s Option.none = (s, [], (false, false)) := rfl
 
 /-! ## acknowledgements -/
 
-/-- **acks_exactly_once.** Every message without the ack bit that is not heartbeat-class — connect,
-close, data (and reject) — is answered by exactly one acknowledgement: the one built from this
-message, which carries its S/N, its version and options, the ack bit, no reject bit and **no payload**
-(`bytes` ends after the options; a peer parses it as a message with `payload = None`). -/
-theorem acks_exactly_once (s : St) (m : Msg) (hack : m.pktType.isAck = false) (hhb : m.heartbeatClass = false) :
+/-- **acks_exactly_once.** For every handler with a transport, in every configuration: every message
+without the ack bit that is not heartbeat-class — connect, close, data (and reject) — is answered by
+exactly one acknowledgement: the one built from this message, which carries its S/N, its version and
+options, the ack bit, no reject bit and **no payload** (`bytes` ends after the options; a peer parses it
+as a message with `payload = None`). -/
+theorem acks_exactly_once (s : St) (m : Msg) (ht : s.transport.isSome = true)
+    (hack : m.pktType.isAck = false) (hhb : m.heartbeatClass = false) :
     (step s (some m)).2.1.filter Out.isAck = [.ack m] ∧
     (stepBase s (some m)).2.1 = [.ack m] ∧
     (Out.ack m).bytes = header ++ [m.version, (ackType m.pktType).byte] ++ be16 m.sn ++ m.optBytes ∧
@@ -90,18 +172,23 @@ theorem acks_exactly_once (s : St) (m : Msg) (hack : m.pktType.isAck = false) (h
     (Out.ack m).asMsg = some { m with pktType := ackType m.pktType, payload := .none } := by
   refine ⟨?_, ?_, rfl, rfl, rfl, rfl⟩
   · rw [step_outs, stepBase_outs, hhb, hack]
+    simp only [St.send_of_some s ht]
     cases m.request <;> simp [List.filter, Out.isAck]
-  · rw [stepBase_outs, hhb, hack]; rfl
+  · rw [stepBase_outs, hhb, hack, St.send_of_some s ht]; rfl
 
 /-- in general: the number of acknowledgements sent for a message is 1 in the case above, 0 otherwise
-(heartbeats and messages with the ack bit are never acknowledged) -/
+(heartbeats and messages with the ack bit are never acknowledged; without a transport nothing is sent) -/
 theorem acks_count (s : St) (m : Msg) :
     ((step s (some m)).2.1.filter Out.isAck).length =
-      if m.pktType.isAck = false ∧ m.heartbeatClass = false then 1 else 0 := by
+      if s.transport.isSome = true ∧ m.pktType.isAck = false ∧ m.heartbeatClass = false then 1 else 0 := by
   rw [step_outs, stepBase_outs]
-  by_cases h1 : m.heartbeatClass = true
-  · by_cases h2 : s.connected = true <;> cases m.request <;> simp [h1, h2, List.filter, Out.isAck]
-  · by_cases h2 : m.pktType.isAck = true <;> cases m.request <;> simp [h1, h2, List.filter, Out.isAck]
+  cases ht : s.transport with
+  | none => cases m.request <;> simp [St.send, ht]
+  | some t =>
+    simp only [St.send, ht, Option.isSome_some, if_true, true_and]
+    by_cases h1 : m.heartbeatClass = true
+    · by_cases h2 : s.connected = true <;> cases m.request <;> simp [h1, h2, List.filter, Out.isAck]
+    · by_cases h2 : m.pktType.isAck = true <;> cases m.request <;> simp [h1, h2, List.filter, Out.isAck]
 
 /-- **acks_unanswered.** A message with the ack bit that is not heartbeat-class (plain ack, ack of a
 connect, ack of a close, ack+reject, …) makes the base handler send nothing; the RRS handler sends
@@ -110,10 +197,12 @@ nothing either, except the registration answer when the message carries an RRS r
 theorem acks_unanswered (s : St) (m : Msg) (hack : m.pktType.isAck = true) (hhb : m.heartbeatClass = false) :
     (stepBase s (some m)).2.1 = [] ∧
     (step s (some m)).2.1 =
-      (match m.request with | some ip => [.rrsAnswer (nextSn s.sn) ip] | Option.none => []) := by
+      (match m.request with | some ip => s.send [.rrsAnswer (nextSn s.sn) ip] | Option.none => []) := by
   constructor
-  · rw [stepBase_outs, hhb, hack]; rfl
-  · rw [step_outs, stepBase_outs, hhb, hack]; rfl
+  · rw [stepBase_outs, hhb, hack]; simp
+  · rw [step_outs, stepBase_outs, hhb, hack]
+    simp only [Bool.false_eq_true, if_false, if_true, St.send_nil, List.nil_append]
+    cases m.request <;> rfl
 
 /-- **no datagram the handler sends — other than the heartbeat echo — is answered by a peer handler**,
 in whatever state the peer is: acknowledgements produce nothing, and the registration answer is not
@@ -148,19 +237,39 @@ theorem pingpong_quiescent (sA sB : St) (m : Option Msg) (hm : ∀ x, m = some x
 
 /-! ## heartbeats -/
 
-/-- **heartbeat_iff_connected.** The handler sends a heartbeat exactly when the message is
-heartbeat-class and the handler is connected, and then exactly one; a heartbeat is never acknowledged. -/
+/-- **heartbeat_iff_connected.** In every configuration — `be_active_peer` true or false, any port — the
+handler sends a heartbeat exactly when the message is heartbeat-class and the handler is connected (and
+has a transport), and then exactly one; a heartbeat is never acknowledged. -/
 theorem heartbeat_iff_connected (s : St) (m : Msg) :
     (step s (some m)).2.1.filter Out.isHeartbeat =
-      (if m.heartbeatClass = true ∧ s.connected = true then [.heartbeat] else []) ∧
-    (m.heartbeatClass = true → (stepBase s (some m)).2.1 = if s.connected then [.heartbeat] else []) := by
+      (if m.heartbeatClass = true ∧ s.connected = true ∧ s.transport.isSome = true then [.heartbeat] else []) ∧
+    (m.heartbeatClass = true →
+      (stepBase s (some m)).2.1 = s.send (if s.connected then [.heartbeat] else [])) := by
   constructor
   · rw [step_outs, stepBase_outs]
-    by_cases h1 : m.heartbeatClass = true
-    · by_cases h2 : s.connected = true <;> cases m.request <;> simp [h1, h2, List.filter, Out.isHeartbeat]
-    · by_cases h2 : m.pktType.isAck = true <;> cases m.request <;> simp [h1, h2, List.filter, Out.isHeartbeat]
+    cases ht : s.transport with
+    | none => cases m.request <;> simp [St.send, ht]
+    | some t =>
+      simp only [St.send, ht, Option.isSome_some, if_true, and_true]
+      by_cases h1 : m.heartbeatClass = true
+      · by_cases h2 : s.connected = true <;> cases m.request <;> simp [h1, h2, List.filter, Out.isHeartbeat]
+      · by_cases h2 : m.pktType.isAck = true <;> cases m.request <;> simp [h1, h2, List.filter, Out.isHeartbeat]
   · intro h1
     rw [stepBase_outs, h1]; rfl
+
+/-- the same, spelled out for a handler built with either value of `be_active_peer` and any port, with
+its transport, in either link state: an active-peer handler whose link is down does **not** echo -/
+theorem heartbeat_iff_connected_any_mode (c : Cfg) (t : Nat) (conn : Bool) (sn : Nat)
+    (reg : List (Bytes × Bool)) (m : Msg) (hhb : m.heartbeatClass = true) :
+    (step { ready c t with connected := conn, sn := sn, registry := reg } (some m)).2.1.filter Out.isHeartbeat =
+      (if conn then [.heartbeat] else []) ∧
+    (stepBase { ready c t with connected := conn, sn := sn, registry := reg } (some m)).2.1 =
+      (if conn then [.heartbeat] else []) := by
+  constructor
+  · rw [(heartbeat_iff_connected _ m).1]
+    cases conn <;> simp [hhb, ready, connectionMade]
+  · rw [(heartbeat_iff_connected _ m).2 hhb]
+    cases conn <;> simp [St.send, ready, connectionMade]
 
 /-- the echo is by design: the heartbeat a connected handler sends is itself a heartbeat for the peer,
 which echoes it while connected and does not change state — so an exchange *started by a heartbeat*
@@ -168,22 +277,82 @@ between two connected handlers of this library never ends (this is why `pingpong
 heartbeat-class datagrams; real repeaters send heartbeats on a timer and do not echo echoes). -/
 theorem heartbeat_echo_is_echoed (s' : St) :
     step s' Out.heartbeat.asMsg =
-      (s', (if s'.connected then [.heartbeat] else []), (true, false)) := by
-  cases s' with
-  | mk c sn reg => cases c <;> rfl
+      (s', s'.send (if s'.connected then [.heartbeat] else []), (true, false)) := by
+  obtain ⟨c, sn, reg, a, p, t⟩ := s'
+  cases c <;> rfl
+
+/-! ## configuration -/
+
+/-- **config_irrelevant (one datagram).** `be_active_peer` and `port` — as given to the constructor or
+re-assigned later — do not influence datagram handling of either class: with other values the same
+datagrams are sent, the same value is returned, the same state results (and the two attributes
+themselves are left alone). -/
+theorem config_irrelevant (k : Bool) (s : St) (a : Bool) (p : Nat) (m : Option Msg) :
+    stepK k { s with activePeer := a, port := p } m =
+      ({ (stepK k s m).1 with activePeer := a, port := p }, (stepK k s m).2) := stepK_cfg k s a p m
+
+/-- **config_irrelevant (histories with re-configuration).** Two runs of either class whose start states
+agree up to `be_active_peer` / `port` and whose event histories (datagrams, `connection_made`,
+`connection_lost`, maintenance iterations, re-configurations) agree up to the *values* assigned by the
+re-configurations send the same datagrams at every step and end in states that agree up to
+`be_active_peer` / `port`. -/
+theorem config_irrelevant_history (k : Bool) (s s' : St) (h h' : List Ev) (hs : s.core = s'.core)
+    (hh : h.map Ev.core = h'.map Ev.core) :
+    (runEv k s h).2 = (runEv k s' h').2 ∧ (runEv k s h).1.core = (runEv k s' h').1.core :=
+  runEv_core k s s' h h' hs hh
+
+/-- datagram handling never writes the configuration or the transport; after any event history
+`be_active_peer` is the last value assigned to it (the constructor's, if none) -/
+theorem config_frame (k : Bool) (s : St) (m : Option Msg) (h : List Ev) :
+    (stepK k s m).1.activePeer = s.activePeer ∧ (stepK k s m).1.port = s.port ∧
+    (stepK k s m).1.transport = s.transport ∧
+    (runEv k s h).1.activePeer = ((h.filterMap activeEv).getLast?).getD s.activePeer := by
+  refine ⟨?_, ?_, ?_, runEv_active k s h⟩ <;> cases k <;>
+    simp [stepK, stepBase_frame s m, step_frame s m]
+
+/-- `periodic_maintenance`, one iteration: a CONNECT (S/N 0) while not connected — for the active and the
+passive peer alike — nothing while connected, state untouched; a peer handler acknowledges that CONNECT
+once and the acknowledgement, delivered back, is not answered. -/
+theorem maintenance_spec (k : Bool) (s s' : St) (ht : s.transport.isSome = true) (ht' : s'.transport.isSome = true) :
+    (applyEv k s .tick).1 = s ∧
+    (applyEv k s .tick).2 = (if s.connected then [] else [.connect]) ∧
+    (step s' Out.connect.asMsg).2.1.filter Out.isAck = (step s' Out.connect.asMsg).2.1 ∧
+    ((step s' Out.connect.asMsg).2.1.filter Out.isAck).length = 1 ∧
+    (∀ o ∈ (step s' Out.connect.asMsg).2.1, (step (applyEv k s .tick).1 o.asMsg).2.1 = []) := by
+  have hout : (step s' Out.connect.asMsg).2.1 =
+      [.ack { version := 0, pktType := PktType.ofByte 4, sn := 0, optBytes := [], payload := .none }] := by
+    simp only [Out.asMsg]
+    rw [step_outs, stepBase_outs, St.send_of_some s' ht']
+    rfl
+  refine ⟨rfl, ?_, ?_, ?_, ?_⟩
+  · simp only [applyEv, tick, St.send_of_some s ht]
+  · rw [hout]; rfl
+  · rw [hout]; rfl
+  · intro o ho
+    rw [hout, List.mem_singleton] at ho
+    subst ho
+    exact ack_unanswered _ _ rfl
 
 /-! ## connected flag -/
 
-/-- **connected_eq_last.** After any history from any state the connected flag is `true` iff the last
-connect-class or close-class message seen was connect-class; with none seen it is the initial value
-(`false` for a new handler). -/
+/-- **connected_eq_last.** After any history from any state (any configuration) the connected flag is
+`true` iff the last connect-class or close-class message seen was connect-class; with none seen it is
+the initial value (`false` for a new handler). -/
 theorem connected_eq_last (s : St) (h : List (Option Msg)) :
     (runFrom s h).1.connected = ((h.filterMap ccOf).getLast?).getD s.connected :=
   runFrom_connected s h
 
-theorem connected_eq_last_init (h : List (Option Msg)) :
-    (run h).1.connected = ((h.filterMap ccOf).getLast?).getD false :=
-  runFrom_connected init h
+theorem connected_eq_last_init (c : Cfg) (h : List (Option Msg)) :
+    (run c h).1.connected = ((h.filterMap ccOf).getLast?).getD false :=
+  runFrom_connected (ready c) h
+
+/-- **connected_eq_last (event histories, both classes).** With `connection_lost`, `connection_made`,
+re-configuration and maintenance iterations between the datagrams: `connection_lost` counts as a close,
+nothing else touches the flag — a handler that is re-used after `connection_lost` / `connection_made`
+starts from "not connected" and follows the datagrams again. -/
+theorem connected_eq_last_events (k : Bool) (s : St) (h : List Ev) :
+    (runEv k s h).1.connected = ((h.filterMap ccEv).getLast?).getD s.connected :=
+  runEv_connected k s h
 
 /-! ## registry and registration answers -/
 
@@ -196,11 +365,23 @@ theorem registry_spec (s : St) (h : List (Option Msg)) (ip : Bytes) :
       (match lastReg ip h with | some b => some b | Option.none => Storage.dictGet s.registry ip) :=
   runFrom_registry s h ip
 
-theorem registry_spec_init (h : List (Option Msg)) (ip : Bytes) :
-    Storage.dictGet (run h).1.registry ip = lastReg ip h := by
-  have := runFrom_registry init h ip
+theorem registry_spec_init (c : Cfg) (h : List (Option Msg)) (ip : Bytes) :
+    Storage.dictGet (run c h).1.registry ip = lastReg ip h := by
+  have := runFrom_registry (ready c) h ip
   rw [run, this]
   cases lastReg ip h <;> rfl
+
+/-- **registry_spec (event histories).** `connection_lost`, `connection_made`, re-configuration and
+maintenance iterations leave registry and S/N alone: after an event history the RRS handler's registry is
+the one implied by the datagrams of the history, and the base handler's never changes. -/
+theorem registry_spec_events (s : St) (h : List Ev) (ip : Bytes) :
+    Storage.dictGet (runEv true s h).1.registry ip =
+      (match lastReg ip (h.filterMap rxOf) with
+       | some b => some b | Option.none => Storage.dictGet s.registry ip) ∧
+    (runEv false s h).1.registry = s.registry ∧ (runEv false s h).1.sn = s.sn := by
+  refine ⟨?_, (runEv_base_registry_sn s h).1, (runEv_base_registry_sn s h).2⟩
+  rw [(runEv_registry_sn s h).1]
+  exact runFrom_registry s _ ip
 
 /-- **answer_sn_lt_2_16.** Every registration request is answered by exactly one registration answer —
 result Success, renewal 300 s, the radio address of the request — whose S/N is the handler's
@@ -208,14 +389,18 @@ incremented counter and fits 16 bits; nothing else triggers a registration answe
 moves with an answer. -/
 theorem registration_answered_once (s : St) (m : Msg) :
     (step s (some m)).2.1.filter Out.isAnswer =
-      (match m.request with | some ip => [.rrsAnswer (nextSn s.sn) ip] | Option.none => []) ∧
+      (match m.request with | some ip => s.send [.rrsAnswer (nextSn s.sn) ip] | Option.none => []) ∧
     nextSn s.sn < 65536 ∧
     (step s (some m)).1.sn = (match m.request with | some _ => nextSn s.sn | Option.none => s.sn) := by
   refine ⟨?_, Nat.lt_trans (nextSn_lt _) (by decide), step_sn s m⟩
   rw [step_outs, stepBase_outs]
-  by_cases h1 : m.heartbeatClass = true
-  · by_cases h2 : s.connected = true <;> cases m.request <;> simp [h1, h2, List.filter, Out.isAnswer]
-  · by_cases h2 : m.pktType.isAck = true <;> cases m.request <;> simp [h1, h2, List.filter, Out.isAnswer]
+  cases ht : s.transport with
+  | none => cases m.request <;> simp [St.send, ht]
+  | some t =>
+    simp only [St.send, ht, Option.isSome_some, if_true]
+    by_cases h1 : m.heartbeatClass = true
+    · by_cases h2 : s.connected = true <;> cases m.request <;> simp [h1, h2, List.filter, Out.isAnswer]
+    · by_cases h2 : m.pktType.isAck = true <;> cases m.request <;> simp [h1, h2, List.filter, Out.isAnswer]
 
 /-- layout of the answer: `2B`, version 0, type "options", S/N, then the RRS frame
 `11 | 00 80 | 00 09 | radio ip | 00 (Success) | 00 00 01 2C (300 s) | checksum | 03` -/
@@ -229,8 +414,8 @@ theorem answer_bytes (sn : Nat) (a b c d : Nat) :
 theorem own_sn_bounded (s : St) (h : List (Option Msg)) (hs : s.sn < 0xFFFF) : (runFrom s h).1.sn < 0xFFFF :=
   runFrom_sn_lt s h hs
 
-theorem own_sn_bounded_init (h : List (Option Msg)) : (run h).1.sn < 0xFFFF :=
-  runFrom_sn_lt init h (by decide)
+theorem own_sn_bounded_init (c : Cfg) (h : List (Option Msg)) : (run c h).1.sn < 0xFFFF :=
+  runFrom_sn_lt (ready c) h (by show (0 : Nat) < 0xFFFF; decide)
 
 /-! ## the hypotheses are satisfiable; concrete runs -/
 
@@ -240,7 +425,7 @@ private def mk (tb sn : Nat) (pl : Payload := .none) (opt : Bytes := []) : Optio
 /-- connect, its ack (not answered), heartbeat (echoed), registration (ack + answer), ack carrying a
 registration (answer only), offline, close, heartbeat (not echoed), garbage -/
 example :
-    (run [mk 4 0, mk 5 0, mk 2 0, mk 0x20 1 (.rrs 3 [10, 0, 0, 100]) [0x83, 4, 0, 1, 0x86, 0x9f, 4, 1, 2],
+    (run { port := 30001, activePeer := true } [mk 4 0, mk 5 0, mk 2 0, mk 0x20 1 (.rrs 3 [10, 0, 0, 100]) [0x83, 4, 0, 1, 0x86, 0x9f, 4, 1, 2],
           mk 0x21 5 (.rrs 3 [10, 0, 0, 101]), mk 0x20 2 (.rrs 1 [10, 0, 0, 100]), mk 8 0, mk 2 0, Option.none]).2.map
         (fun outs => outs.map Out.bytes)
       = [[[0x32, 0x42, 0, 5, 0, 0]], [], [[0x32, 0x42, 0, 2, 0, 0]],
@@ -257,8 +442,23 @@ example : nextSn 0xFFFD = 0xFFFE ∧ nextSn 0xFFFE = 0 := by decide
 /-- several type bits: connect+close is a connect; heartbeat+ack is a heartbeat (echoed while
 connected, never acknowledged); reject is acknowledged with the reject bit cleared -/
 example :
-    (step { init with connected := false } (mk 0x0C 9)).1.connected = true ∧
-    (step { init with connected := true } (mk 0x03 0)).2.1 = [.heartbeat] ∧
-    ((step init (mk 0x10 7)).2.1.map Out.bytes) = [[0x32, 0x42, 0, 1, 0, 7]] := by decide
+    (step { ready { port := 1 } with connected := false } (mk 0x0C 9)).1.connected = true ∧
+    (step { ready { port := 1 } with connected := true } (mk 0x03 0)).2.1 = [.heartbeat] ∧
+    ((step (ready { port := 1 }) (mk 0x10 7)).2.1.map Out.bytes) = [[0x32, 0x42, 0, 1, 0, 7]] := by decide
+
+/-- the missed class, concretely: a handler built with `be_active_peer=True` whose link is down does not
+echo a heartbeat; after a connect it does; after `connection_lost` it does not again -/
+example :
+    (runEv true (ready { port := 30001, activePeer := true }) [.rx (mk 2 0), .rx (mk 4 0), .rx (mk 2 0), .lost, .rx (mk 2 0),
+        .setActive false, .rx (mk 2 0), .tick]).2
+      = [[], [.ack { version := 0, pktType := PktType.ofByte 4, sn := 0, optBytes := [], payload := .none }],
+         [.heartbeat], [], [], [], [], [.connect]] := by decide
+
+/-- a handler that never got a transport: silent, and a registration request raises after the update -/
+example :
+    (step (init { port := 1 }) (mk 4 0)).2.1 = [] ∧ (step (init { port := 1 }) (mk 4 0)).1.connected = true ∧
+    stepE (init { port := 1 }) (mk 0x20 1 (.rrs 3 [10, 0, 0, 100])) =
+      .error (.noTransport { init { port := 1 } with sn := 1, registry := [([10, 0, 0, 100], true)] }) :=
+  ⟨by decide, by decide, by rfl⟩
 
 end Dmr.C17
